@@ -14,7 +14,8 @@ CLAIMED = {
                 "<=4x<=4 on the full coherent {0,1,2}^3 x {0,1,2,inf} cost grid, 5x<=4 on six vectors, <=3x5..6 on the core menu), "
                 "every leaf assignment (hence every pattern of empty species), thl and exh under ALL and ANY (menus include transfers far dearer than a duplication: 4x4 leaves at hgt 8), "
                 "generate_all per input under five cost vectors (hgt=inf, zeros, incoherent); "
-                "oracle = brute force over all |S|^internal mappings. Complete within the slices, silent about larger inputs.",
+                "oracle = brute force over all |S|^internal mappings. Operation histories: one input object per shape pair (3x4 / 4x4 leaves) whose "
+                "assignment and cost dicts are updated in place through every case. Complete within the slices, silent about larger inputs.",
         "design_ref": "6 (C01), 4, 5",
         "note": "Trusted: refmodel/dtl.py (cross-validated brute force <-> Bellman), ete3 container, CPython. Cost vectors "
                 "restricted to spe <= dup + 2*floss; outside it only the F-COHERENCE witnesses of known_findings.json are replayed.",
@@ -25,6 +26,7 @@ CLAIMED = {
         "text": "Bounded-exhaustive over labelled inputs: quick <=3 object x <=2 species leaves x all 15 arrangements of <=3 families "
                 "(tuples up to family renaming, inconsistent orders kept) + prescribed root orders; thorough adds <=3x<=3x3 families, "
                 "4x<=3x2 families, 4x<=2x subsequences of abc, each with its coherent cost menu, ext_spfs and base_spfs, ALL and ANY. "
+                "quick also 4-leaf chains on one species x subsequences of abc, and a session slice (one input object updated in place). "
                 "Oracle: Bellman over (species, subsequence) for every compatible root order; base: LCA mapping fixed.",
         "design_ref": "6 (C02), 4.2-4.4, 5",
         "note": "Trusted: refmodel/ordered.py (cross-validated against brute force in selftest). Coherent cost region only; "
@@ -36,7 +38,8 @@ CLAIMED = {
         "text": "Bounded-exhaustive over unordered labelled inputs: quick <=3x<=3 leaves x all subsets of 3 families and 4x<=2x2 families; "
                 "plus chains of 5 leaves on one species x 3 families and chains of 4 leaves on a species cherry x 3 families; "
                 "thorough adds 4x<=3x2, 4x<=2x4 families, 5x<=2x2. Oracle searches EVERY admissible labelling (brute force <=4 leaves, "
-                "Bellman at 5), so the solver's restriction to the LCA/INHERIT labellings is itself decided on these slices.",
+                "Bellman at 5), so the solver's restriction to the LCA/INHERIT labellings is itself decided on these slices. Session slice: one "
+                "input object per shape pair (<=3x<=3 leaves, 2 families) updated in place.",
         "design_ref": "6 (C03), 4.2-4.4, 5",
         "note": "Trusted: refmodel/unordered.py (brute force <-> Bellman cross-validated). Coherent cost region only; "
                 "F-COHERENCE witnesses replayed from known_findings.json.",
@@ -47,7 +50,8 @@ CLAIMED = {
         "text": "Bounded-exhaustive validity check of every object returned by all seven algorithms under both policies on the P-, O-, U-slices "
                 "(incl. 5-leaf chains x 3 families for the unordered solvers) and on multifurcating inputs (Schroeder shapes <=3x<=3 leaves; thorough also 4-leaf objects with one 3-ary polytomy) for the "
                 "extended solvers, with a cost menu that includes sloss=0, all-zero and incoherent vectors; the structural predicate is evaluated "
-                "on the trees each solution refers to.",
+                "on the trees each solution refers to; on refinements the cost must also be finite under the REQUESTED unit costs (hgt = inf included); "
+                "a polytomy session slice solves one multifurcating input object again after in-place updates of its leaf data and costs.",
         "design_ref": "6 (C04)",
         "note": "Trusted: the validity predicates in refmodel/{dtl,ordered,unordered}.py. No optimality is checked here (C01-C03, C05, C08).",
         "technique": TECH_E2,
@@ -91,7 +95,8 @@ CLAIMED = {
                 "prod (2k-3)!! of them, each once, clades/names/colours/leaf names kept, argument untouched; ReconciliationInput.binarize() on all "
                 "<=3x<=3 shape pairs. End-to-end: every input with a polytomy in either tree, <=3x<=3 leaves (thorough: + 4-leaf objects with one "
                 "3-ary node), small synteny menus, ext_spfs and superdtl, ALL and ANY: optimum = minimum over all refinement pairs of the C02/C03 "
-                "oracle, ALL = union of the per-refinement optimal sets, solutions refer to genuine refinements with named new nodes.",
+                "oracle, ALL = union of the per-refinement optimal sets, solutions refer to genuine refinements with named new nodes; plus a session "
+                "slice: one multifurcating input object solved again after in-place edits of ancestor names, a colour and its leaf data.",
         "design_ref": "6 (C08)",
         "note": "Trusted: refmodel/refine.py and the C02/C03 oracles. Coherent costs only. A 4-leaf star on a 3-leaf star (45 refinement pairs per "
                 "case) is not enumerated with all assignments.",
@@ -125,7 +130,8 @@ CLAIMED = {
                 "algorithms on <=3x<=3 inputs, every valid mapping of the P-slice (quick <=3x<=3, thorough <=4x<=3) and every valid unordered / selected "
                 "ordered labelling on <=2 families, crossed with 5 naming schemes (digits, underscores, O#/S# look-alikes, names differing only by case), a colour menu on both trees "
                 "(all subsets of <=3 object / <=2 species nodes on small trees, root and nested colours) and a float-infinite transfer cost; trees, "
-                "mappings, syntenies, flag, events, cost compared, and to_dict() of the copy reproduced verbatim on the listed fields.",
+                "mappings, syntenies, flag, events, cost compared, and to_dict() of the copy reproduced verbatim on the listed fields; every object is "
+                "serialised a second time after an in-place edit of its trees and costs.",
         "design_ref": "6 (C11)",
         "note": "Premise: unique node names. The embedded input's leaf_syntenies of an output is outside the listed fields and not compared.",
         "technique": TECH_E2,
@@ -182,7 +188,7 @@ CLAIMED = {
     "C16": {
         "category": "model_checking",
         "text": "Explicit-state BFS over all reachable states of real Entry objects and table cells (1-3 dimensional, "
-                "Dict and List dimensions, fresh and pre-initialised) under every batch of <=2 (quick) / <=3 (thorough) "
+                "Dict and List dimensions incl. two leading List dimensions, fresh and pre-initialised, with a cell handle kept from before the first write) under every batch of <=2 (quick) / <=3 (thorough) "
                 "candidates over {0,1,2}x{None,a,b}, for the 2x3 policy pairs, with the reference (optimum, optimal-tag set) "
                 "run in lock-step; every pair of reachable entry states combined under 7 combinators (three with tag-dependent values); all histories of "
                 "depth 4 (quick) / 5 (thorough) in every batch split replayed on fresh objects. Exhaustive within those bounds.",
@@ -193,7 +199,7 @@ CLAIMED = {
     "C17": {
         "category": "exploration",
         "text": "Exhaustive over all rooted plane trees of any arity with <= 9 (quick) / 11 (thorough) nodes built through the ete3 API (plus edit "
-                "histories: structure built, the same tree object edited by every subtree move / leaf addition / removal, rebuilt; <= 7 / 8 nodes): every "
+                "histories: structure built, the same tree object edited by every subtree move / leaf addition / removal, rebuilt; <= 7 / 8 nodes; structures of a tree and of its subtrees alive together): every "
                 "node, ordered pair and ordered triple for lca / is_ancestor_of / is_strict_ancestor_of / is_comparable / level / distance against "
                 "parent-chain definitions; every array of length <= 11 / 13 over {0,1,2} x every (start, stop) pair for RangeMinQuery.",
         "design_ref": "6 (C17)",
@@ -204,7 +210,7 @@ CLAIMED = {
         "category": "exploration",
         "text": "Exhaustive over all (child != 0, parent) mask pairs up to 11 (quick) / 13 (thorough) bits x both end modes against an independent "
                 "run counter, and all sequences of distinct elements up to length 11 / 13 with all their subsequences (three element alphabets) "
-                "for the mask <-> subsequence round trip.",
+                "for the mask <-> subsequence round trip; one mutable parent sequence rearranged in place through every permutation (<= 6 / 7 elements).",
         "design_ref": "6 (C18)",
         "note": "Trusted: refmodel/graphs.py:lost_runs_mask.",
         "technique": TECH_E2,
